@@ -239,6 +239,28 @@ def s2(prog, rep, P, tag=""):
                     if vt.get("Ok") is not None and c.bb in q.edge_dominated(poll, tb, vt["Ok"]):
                         ok = True
         rep.ob(P + ".S2", "ReceivedFrame::new<-%s%s" % (c.body.root_short, tag), ok, "ReceivedFrame::new is reached only on the Ok edge of the RxDone->RxProcessing compare-exchange in poll", loc=c.span)
+    # claim-before-touch: nothing of the slot is written before the claim succeeded
+    fe = prog.body("FrameElement::claim_created")
+    sw = fe.calls_to("FrameElement::swap_state")
+    ok = len(sw) == 1
+    if ok:
+        tr = q.ok_edge_of_try(fe, sw[0])
+        if tr is None:
+            for m in fe.calls():
+                if m.is_("Result::map_err") and (op_place(m.args[0]) or {}).get("l") == sw[0].dest["l"]:
+                    tr = q.ok_edge_of_try(fe, m)
+        dom = q.edge_dominated(fe, tr[0], tr[1]) if tr and tr[1] is not None else set()
+        wr = [a for f in ("storage_slot_index", "pdu_payload_len", "first_pdu", "ethernet_frame", "waker") for a in q.field_accesses(fe, "FrameElement", f) if a[2] in ("write", "addr_mut")]
+        ok = bool(dom) and bool(wr) and all(a[0] in dom for a in wr)
+    rep.ob(P + ".S2", "claim_created:claim-before-touch" + tag, ok, "FrameElement::claim_created writes slot fields only on the success edge of the None->Created compare-exchange", loc=fe.span)
+    cc = prog.body("CreatedFrame::claim_created")
+    cl = cc.calls_to("FrameElement::claim_created")
+    ini = cc.calls_to("FrameBox::init")
+    ok = len(cl) == 1 and len(ini) == 1
+    if ok:
+        tr = q.ok_edge_of_try(cc, cl[0])
+        ok = tr is not None and tr[1] is not None and ini[0].bb in q.edge_dominated(cc, tr[0], tr[1])
+    rep.ob(P + ".S2", "claim_created:init-after-claim" + tag, ok, "the buffer is (re)initialised only after the claim succeeded", loc=cc.span)
     # mark_sendable consumes the CreatedFrame (self by value)
     ms = prog.body("CreatedFrame::mark_sendable")
     rep.ob(P + ".S2", "mark_sendable:consumes-self" + tag, "CreatedFrame" in ms.local_ty(1) and not ms.local_ty(1).startswith("&"), "mark_sendable takes the CreatedFrame by value (type %s)" % ms.local_ty(1), loc=ms.span, how="type", nontrivial=False)
